@@ -101,6 +101,10 @@ def gen_project(rng: random.Random, size: str = 'small') -> T.Dict[str, T.Any]:
             src = rng.choice(values)
             # either a declared input:, or read through depends: with the path passed as a plain string argument
             (e['inputs'] if rng.random() < 0.5 else e['depends']).append(src['name'])
+        elif values and i >= 1 and rng.random() < 0.5:
+            # several consumers of one producer through depends: (each of them needs its own edge)
+            prev = [h for h in hdrs if h.get('depends')]
+            e['depends'].append(prev[0]['depends'][0] if prev else values[0]['name'])
         ents.append(e)
         hdrs.append(e)
         values.append(e)
